@@ -19,7 +19,7 @@ from vf.checks import c14
 
 SHARDS = {'quick': 16, 'thorough': 64}
 TIMEOUT = {'quick': 1500, 'thorough': 7200}
-MUST_HIT = ['EarlierObject.rechecked', 'Xsd.attribute-of-unsupported-data-type', 'Xsd.well-formed', 'Xsd.types', 'Xsd.classes', 'Xsd.after-edit', 'Xsd.cli-file',
+MUST_HIT = ['EarlierObject.rechecked', 'Xsd.types-in-nested-package', 'Xsd.attribute-of-unsupported-data-type', 'Xsd.well-formed', 'Xsd.types', 'Xsd.classes', 'Xsd.after-edit', 'Xsd.cli-file',
             'Xsd.enumerator-order', 'Xsd.real-model-edit', 'Xsd.xml-special-names']
 MUST_REACH = ['bridgepoint/gen_xsd_schema.py:build_schema', 'bridgepoint/gen_xsd_schema.py:build_component',
               'bridgepoint/gen_xsd_schema.py:build_class', 'bridgepoint/gen_xsd_schema.py:build_enum_type',
@@ -144,7 +144,7 @@ def edit(rng, d):
     if k == 'add-udt':
         name = 'U%d' % rng.randrange(1000)
         d.udts.append((name, rng.choice(('integer', 'string', 'Color', 'Count_t', 'void', 'inst_ref<Object>')),
-                       rng.choice(('pkg', 'comp'))))
+                       rng.choice(('pkg', 'comp', 'deep'))))
         return ('add-user-type', name)
     return None
 
@@ -169,7 +169,7 @@ def move(rng, d):
     if not free:
         return None
     c = rng.choice(free)
-    c.where = rng.choice([w for w in ('pkg', 'comp', 'comp2', 'nested') if w != c.where])
+    c.where = rng.choice([w for w in ('pkg', 'comp', 'comp2', 'nested', 'deep') if w != c.where])
     return ('move', c.kl, c.where)
 
 
@@ -177,6 +177,11 @@ def one_diagram(ctx, rng, tmpdir):
     d = c14.random_diagram(rng, derived_keys=True)
     # enumerators are declared under their modeled names, also when such a name is a word of Python
     d.enums.append(('Local_Enum', ['L1', 'L2'] if rng.random() < 0.5 else ['L1', 'pass', 'None', 'L2', 'class'], 'comp'))
+    if rng.random() < 0.5:
+        # data types two package levels below the component: in scope, declared once
+        ctx.hit('Xsd.types-in-nested-package')
+        d.enums.append(('Deep_Enum', ['D1', 'D2', 'D3'], 'deep'))
+        d.udts.append(('Deep_Count', rng.choice(('integer', 'Deep_Enum', 'Count_t')), 'deep'))
     for c in d.classes:
         if rng.random() < 0.3:
             ctx.hit('Xsd.attribute-of-unsupported-data-type')
